@@ -40,9 +40,10 @@ type PrecLine struct {
 
 // Act describes the semantic action of a rule abstractly (see actions.go).
 type Act struct {
-	Kind  string `json:"kind"`  // "" (no action) | "log" (only logs) | "int" | "str"
-	Args  []int  `json:"args"`  // 1-based rhs positions used
-	Coefs []int  `json:"coefs"` // constants: Coefs[0] + sum Coefs[i+1]*$Args[i]
+	Kind  string `json:"kind"`            // "" (no action) | "log" (only logs) | "int" | "str"
+	Args  []int  `json:"args"`            // 1-based rhs positions used
+	Coefs []int  `json:"coefs"`           // constants: Coefs[0] + sum Coefs[i+1]*$Args[i]
+	Abort bool   `json:"abort,omitempty"` // the action panics for some values after assigning $$ (session experiments only)
 }
 
 type Rule struct {
@@ -821,7 +822,7 @@ func LoadCorpus(dir string) ([]*Case, error) {
 // Names avoid Go/TypeScript keywords, predeclared identifiers and the
 // identifiers the templates themselves declare (a clash there is the user's
 // naming problem, as with yacc's yy prefix).
-func GenFeature(r *rand.Rand, id string) *Case {
+func GenFeature(r *rand.Rand, id string, ctrl bool) *Case {
 	c := &Case{ID: id, Family: "feature", Types: map[string]string{}}
 	letters := "abcdefghijklmnopqrstuvwxyzABCDEFGHIJKLMNOPQRSTUVWXYZ"
 	mkName := func(prefix string, i int) string {
@@ -852,6 +853,9 @@ func GenFeature(r *rand.Rand, id string) *Case {
 	seen := map[byte]bool{}
 	for i := 0; i < nL; i++ {
 		ch := byte(33 + r.Intn(94))
+		if ctrl && r.Intn(12) == 0 {
+			ch = []byte{'\n', '\t'}[r.Intn(2)] // the lexer takes any single character between the quotes
+		}
 		if ch == '\'' || ch == '\\' || seen[ch] {
 			continue
 		}
